@@ -75,6 +75,8 @@ mod topk;
 // Re-export all public combiners
 pub use basic::{Max, Min, Sum};
 pub use distinct::{DistinctCount, DistinctSet, KMVApproxDistinctCount};
+#[cfg(feature = "verif-hooks")]
+pub use distinct::{KMVAcc, verif_rank_from_value};
 pub use quantiles::{ApproxMedian, ApproxQuantiles, TDigest};
 pub use sampling::PriorityReservoir;
 pub use statistical::AverageF64;
